@@ -147,6 +147,15 @@ def gen(rng, tier):
         c['kind'] = 'wwrite'
         c['vdtype'] = rng.choice(['f', 'd'])
         out.append(c)
+    for i in range(max(2, n // 40)):
+        # the writer's option tflag names the variable that holds the time stamps (here LTFLAG; the variable TFLAG of the same
+        # data set holds other days and hours)
+        c = S.gen_wind(rng)
+        c['stag'] = rng.choice([0, 1])
+        c['kind'] = 'wwrite'
+        c['vdtype'] = 'f'
+        c['alttflag'] = True
+        out.append(c)
     for i in range(n // 8):
         c = S.gen_wind(rng)             # reference encoder -> both library readers (1-9 steps, both header variants)
         c['kind'] = 'wread'
@@ -321,7 +330,16 @@ def _impl_wind(case):
     p = os.path.join(camx.tmpdir(), 'c09w_%d_%d.bin' % (os.getpid(), np.random.randint(1 << 30)))
     try:
         with lib.pnc_warnings():
-            pncgen(S.wind_build(case, case['vdtype']), p, format='camxfiles.wind', verbose=0)
+            f = S.wind_build(case, case['vdtype'])
+            kw = {}
+            if case.get('alttflag'):
+                lt = f.createVariable('LTFLAG', 'i', ('TSTEP', 'VAR', 'DATE-TIME'))
+                lt[:] = f.variables['TFLAG'][:]
+                tf = f.variables['TFLAG']
+                tf[:, :, 0] = tf[:, :, 0] - 1 - (np.arange(tf.shape[0]) % 2)[:, None]      # other days
+                tf[:, :, 1] = (tf[:, :, 1] + 50000) % 240000                                 # other hours
+                kw['writer_kw'] = dict(tflag='LTFLAG')
+            pncgen(f, p, format='camxfiles.wind', verbose=0, **kw)
         return dict(hex=open(p, 'rb').read().hex())
     except lib.HarnessError:
         raise
